@@ -496,6 +496,27 @@ def native_closure(c, name, warm=6, k=2, steps=6):
     c.holds('entering_the_sampling_phase_again_consumes_no_random_number', bool(np.array_equal(rs, np.random.get_state()[1])))
 
 
+def callback_object_kinds(c, iface, name):
+    """'the callback is invoked exactly once for every state produced by a transition' - for ANY callable: besides plain functions, a recorder OBJECT with
+    __call__ whose truth value is False while it is empty (it defines __len__; a list subclass with __call__): whether a callback is invoked depends on its
+    presence, not on its truth value (bounded stand-in: native)"""
+    import io, contextlib
+    class Recorder:
+        def __init__(self): self.seen = []
+        def __call__(self, x, i): self.seen.append((np.array(x, dtype=float).copy(), i))
+        def __len__(self): return len(self.seen)
+    class ListRecorder(list):
+        def __call__(self, x, i): self.append((np.array(x, dtype=float).copy(), i))
+    np.random.seed(int(c.real('seed', lo=0, hi=10 ** 6)))
+    for kind, rec in (('object_with_len', Recorder()), ('list_subclass', ListRecorder())):
+        with contextlib.redirect_stdout(io.StringIO()), contextlib.redirect_stderr(io.StringIO()):
+            if iface == 'exp':
+                s = EXP[name](cb=rec); s.warmup(2); s.sample(4); n_expected = 6
+            else:
+                s = LEG[name](cb=rec); s.sample(5, 1); n_expected = 5          # states 1 .. N+Nb-1 are produced by transitions
+        c.holds(f'{kind}:invoked_once_per_transition', len(rec) == n_expected, note=f"{len(rec)} invocations, {n_expected} transitions")
+
+
 def legacy_wrapper(c, adapt):
     """legacy Sampler.sample / sample_adapt around an ARBITRARY kernel loop: for symbolic N, Nb (N + Nb >= 2) the returned Samples object holds exactly the
     array the sampler's loop returned (same object, no subscript applied by the wrapper), with the target's geometry and the reported diagnostics"""
@@ -612,4 +633,7 @@ def jobs(tier):
     J += [j for j in _c19.jobs(tier) if j.id in ('Samples.burnthin:symbolic_N_Nb_Nt', 'JointSamples.burnthin:symbolic_N_Nb_Nt', 'Samples.burnthin:values:vector')]
     from contracts import C09 as _c09
     J += [j for j in _c09.jobs(tier) if j.id in ('HybridGibbs:continuation_and_warmup', 'legacy.Gibbs:stored_columns_and_continuation')]
+    for iface, name in (('exp', 'MH'), ('exp', 'LinearRTO'), ('leg', 'MH'), ('leg', 'pCN')):
+        J.append(Job(f'{"experimental" if iface == "exp" else "legacy"}.{name}:callback_given_as_an_object_that_is_falsy_while_empty', lambda c, i=iface, nm=name: callback_object_kinds(c, i, nm), 'B',
+                     [f'{SM}:Sampler._call_callback'] if iface == 'exp' else ['cuqi.sampler._sampler:Sampler._call_callback'], nnum=1))
     return J
